@@ -138,7 +138,8 @@ func (demuxer *Demuxer) Close() error {
 	}
 
 	demuxer.closed = true
-	demuxer.recvQueue.Signal()
+	// 通过队列锁唤醒：避免处理协程在检查 closed 之后、进入等待之前丢失信号
+	demuxer.recvQueue.Push(nil)
 	return nil
 }
 
